@@ -87,7 +87,7 @@ Proof.
     eapply (ins_descend_range K V ltb HS order o0 r (tr s) rt); eauto.
   - (* InsWantChild *)
     apply bind_some_inv in Hb.
-    eapply (ins_child_shape K V ltb HS order o0 p c index (tr s)); eauto.
+    eapply (ins_child_shape2 K V ltb HS order o0 p c index (tr s)); eauto.
   - (* InsWantSplitRight *)
     apply bind_some_inv in Hb. cbn [pc_ok_b] in Hpc.
     destruct (Conc.find p (tr s)) as [[?|pi cs]|] eqn:Hfp; try discriminate Hpc.
@@ -123,7 +123,7 @@ End Main.
                   in_range_plug, find_in_range.
      GIa1_Local:  leaf_put_ok, leaf_keys_ok, ins_nth_is_put, app_is_put, split_ok (split_facts without occupancy),
                   child_facts, child_nosplit, child_split, root_split_ok.
-     GIa1_Blocks: leaf_write_ctx, leaf_put_ctx, leaf_keys_ctx, ins_descend_ctx, ins_descend_range, ins_child_shape,
+     GIa1_Blocks: leaf_write_ctx, leaf_put_ctx, leaf_keys_ctx, ins_descend_ctx, ins_descend_range, ins_child_shape (old sep choice), ins_child_shape2 (F6),
                   root_shape, upd_cb_shape.
    No fact was missing from pc_ok_b.  Unused facts: lock_inv2/frame_inv (only through ids_ok_step), the two existsb
    conjuncts of InsWantSplitRight, the mode-1/mode-2 conjuncts of UpdCallback. *)
